@@ -9,7 +9,8 @@ CONSTANTS ShapeNames,   \* which of the shapes below to explore
           MaxRel,       \* bound on now - start
           MaxDepth,     \* nesting of next_state_now
           MaxLevel,     \* bound on behaviour length
-          UseInit       \* explore engage(initial_state=..) / force=True
+          UseInit,      \* explore engage(initial_state=..) / force=True
+          MaxActs       \* in-state actions per outermost iteration
 
 Shp(states, first, default, durOf, nextOf, mf, auto) ==
     [states |-> states, first |-> first, default |-> default, durOf |-> durOf, nextOf |-> nextOf,
@@ -58,8 +59,9 @@ TopInputs ==
               f \in (IF UseInit THEN BOOLEAN ELSE {FALSE})}
          \cup {[e |-> "done"], [e |-> "execute"]}
 InStateInputs ==
-    IF stack # <<>> /\ stack[Len(stack)] = sh.default
+    IF (stack # <<>> /\ stack[Len(stack)] = sh.default) \/ acted >= MaxActs
     THEN {}
+    ELSE IF udone THEN {[e |-> "done"]}     \* nothing is selected after done() (see udone in MagicSM)
     ELSE {[e |-> "ns", s |-> s] : s \in NonDef} \cup {[e |-> "done"]}
          \cup (IF UseInit /\ ~sh.auto THEN {[e |-> "engage", init |-> None, force |-> f] : f \in BOOLEAN} ELSE {})
          \cup (IF Len(stack) < MaxDepth THEN {[e |-> "nsnow", s |-> s] : s \in NonDef} ELSE {})
@@ -80,7 +82,7 @@ Bound == now - start <= MaxRel /\ TLCGet("level") <= MaxLevel
 
 \* absolute time does not matter, only time since the machine's origin
 MCView == <<sh, se, eng, cur, now - start, ran, st0, exp, dur, ntcur, autoOn, latchSet, stack, acted, req, post,
-            ncalls, nsn, dflag, pure, inAuto, out, br>>
+            ncalls, nsn, dflag, udone, pure, inAuto, out, br>>
 
 EnabledAgrees == \A ev \in Inputs : EvEnabled(ev) = ENABLED EvNext(ev)
 
